@@ -153,7 +153,7 @@ func (c *checkCtx) tryPlan(p *plan.SchedPlan, key string) (bool, string) {
 // key; for races the same pair of functions) persists. Every candidate runs in
 // a fresh worker process.
 func (c *checkCtx) minimizeSched(p *plan.SchedPlan, key string) *plan.SchedPlan {
-	budget := 140
+	budget := 150
 	test := func(q *plan.SchedPlan) bool {
 		if budget <= 0 {
 			return false
@@ -238,6 +238,11 @@ func (c *checkCtx) minimizeSched(p *plan.SchedPlan, key string) *plan.SchedPlan 
 					cur, changed = q, true
 				}
 			}
+		}
+	}
+	if q := cur.Compact(); len(q.Objects) < len(cur.Objects) || len(q.Data) < len(cur.Data) {
+		if test(q) {
+			cur = q
 		}
 	}
 	cur.Expect = key
